@@ -327,6 +327,16 @@ def call(fn, desc, arrays, kw, backend):
         return ("exc", common.classify_exc(e), common.exc_site(e), str(e)[:200])
 
 
+def graph_text(fn, desc, arrays, kw, backend):
+    import einx
+    try:
+        with warnings.catch_warnings():
+            warnings.simplefilter("ignore")
+            return str(common.with_alarm(30, getattr(einx, fn), desc, *[np.array(a) for a in arrays], backend=backend, graph=True, **kw))
+    except BaseException as e:  # noqa: BLE001
+        return "raises " + common.classify_exc(e)
+
+
 def _work(item):
     c, kind, sdesc, skw, ldesc, lkw = item
     out = []
@@ -351,6 +361,12 @@ def _work(item):
         rs = call(fn_s, sdesc, arrays_s, skw2, b)
         rl = call(c.op, ldesc, c.arrays, lkw2, b)
         same = (rs[0] == rl[0]) and ((rs[0] == "ok" and eq(rs[1], rl[1])) or (rs[0] == "exc" and rs[1] == rl[1]))
+        if same and kind == "rearrange":
+            # einx.rearrange = einx.id in every respect: the code it returns for a given backend, and what an unknown backend name does
+            same = graph_text(fn_s, sdesc, arrays_s, skw2, b) == graph_text(c.op, ldesc, c.arrays, lkw2, b)
+            if same:
+                ru, iu = call(fn_s, sdesc, arrays_s, skw2, "no_such_backend"), call(c.op, ldesc, c.arrays, lkw2, "no_such_backend")
+                same = (ru[0], ru[1] if ru[0] == "exc" else None) == (iu[0], iu[1] if iu[0] == "exc" else None)
         if not same:
             out.append(({"kind": "shorthand_differs", "shorthand": kind, "family": c.family, "backend": b,
                          "short": rs[0] if rs[0] == "ok" else rs[1], "long": rl[0] if rl[0] == "ok" else rl[1]},
@@ -427,6 +443,26 @@ def sized_ellipsis_items(rng, n):
     return items
 
 
+def ellipsis_bracket_mismatch_items(rng, n):
+    """an ellipsis that is bracketed in one place and not in another - ill-formed; the anonymous '...' is one shared named ellipsis,
+    so the short form must be refused exactly like the long form"""
+    items = []
+    while len(items) < n:
+        k = rng.randint(1, 2)
+        shape = tuple([rng.choice([2, 3])] + [rng.choice([2, 3]) for _ in range(k)])
+        x = gencalls.int_data(rng, shape).astype(np.float64)
+        op, short, long_ = rng.choice([
+            ("sum", "b [...] -> b ...", "b [s...] -> b s..."),
+            ("softmax", "b [...] -> b ...", "b [s...] -> b s..."),
+            ("flip", "b ... -> b [...]", "b s... -> b [s...]"),
+            ("sum", "[...] b -> ... b", "[s...] b -> s... b"),
+        ])
+        fam = "reduce" if op == "sum" else "preserve"
+        c = gencalls.Call(fam, op, [], [], [x], desc=short)
+        items.append((c, "anonymous_ellipsis_bracket_mismatch", short, {}, long_, {}))
+    return items
+
+
 def make_items(rng, n):
     items = []
     tries = 0
@@ -441,7 +477,7 @@ def make_items(rng, n):
         if p is None:
             continue
         items.append((c,) + p)
-    return items + ellipsis_implicit_items(rng, max(8, n // 25)) + sized_ellipsis_items(rng, max(8, n // 25)) + number_nondividing_items(rng, max(8, n // 25)) + repeated_group_number_items(rng, max(12, n // 25))
+    return items + ellipsis_implicit_items(rng, max(8, n // 25)) + sized_ellipsis_items(rng, max(8, n // 25)) + number_nondividing_items(rng, max(8, n // 25)) + repeated_group_number_items(rng, max(12, n // 25)) + ellipsis_bracket_mismatch_items(rng, max(8, n // 40))
 
 
 def run(ctx):
